@@ -117,3 +117,23 @@ func classOfTree(c *ev.Case, ctx string, nodes []*refcodec.Node) {
 func sampleMsg(ctx string, m *gen.Msg, wire []byte) map[string]any {
 	return map[string]any{"dict": ctx, "header": fmt.Sprintf("%+v", m.H), "avps": refcodec.Describe(m.Nodes), "wire": ev.Hex(wire)}
 }
+
+// inParallel runs fn on G goroutines that start together, each with a stand-alone case of the
+// same suite (its own PRNG stream): the per-case oracle is the one of the sequential suites, only
+// the moment of execution is shared - what is correct from one goroutine must be correct from
+// several that share a Parser, a ServeMux or a state machine.
+func inParallel(rec *ev.Rec, c *ev.Case, G int, fn func(gc *ev.Case, g int)) {
+	var wg sync.WaitGroup
+	start := make(chan struct{})
+	for g := 0; g < G; g++ {
+		gc := rec.OneCase(c.Suite, c.I*G+g)
+		wg.Add(1)
+		go func(g int) {
+			defer wg.Done()
+			<-start
+			fn(gc, g)
+		}(g)
+	}
+	close(start)
+	wg.Wait()
+}
